@@ -217,10 +217,7 @@ impl Walker {
         let r = self.xs.next();
         self.xs.set_stack_limit(None).unwrap();
         self.xs.set_insn_limit(Some(100_000)).unwrap();
-        let fired = match &r {
-            Err(Xerr::ErrorMsg(m)) => m.contains("limit reached"),
-            _ => false,
-        };
+        let fired = is_limit_err(&r, None);
         if !fired {
             // the limit was not reached: an ordinary step
             let rr = render_result(&r);
